@@ -8,17 +8,19 @@ UNITS = [
          impl_extra="""
     open spec fn process_pre<'a, T: Queryable>(&self, state: State<'a, T>) -> bool { wf_selector(*self) }
     open spec fn process_rel<'a, T: Queryable>(&self, state: State<'a, T>, r: State<'a, T>) -> bool {
-        nodes_rel(state, r, mapped(nodes(state.data), |n: Node<'a, T>| rfc_sel(*self, n, state.root)))
+        nodes_rel(state, r, mapped(nodes(state.data), sel_fn(*self, state.root)))
+        // a name or index selector maps one node to at most one node (singular queries, RFC 9535 2.3.5.1)
+        && ((*self is Name || *self is Index) && one_or_none(state.data) ==> one_or_none(r.data))
     }
 """,
          # the contract of a trait method is the trait's: requires process_pre, ensures process_rel
          ensures=[("rel", "self.process_rel(step, r)")],
          closures={
              1: Cl(expect="process_key(d, key)", types=["Pointer<'a, T>"], ret=NODE_CL,
-                   ensures=[("nodes", "is_nodes(o) && nodes(o) == sel_name(nd(d), key@)")]),
+                   ensures=[("nodes", "(o is Ref || o is Nothing) && nodes(o) == sel_name(nd(d), key@)")]),
              2: Cl(expect="process_index(d, idx)", types=["Pointer<'a, T>"], ret=NODE_CL,
                    requires=[("wf", "ijson(*idx as int)")],
-                   ensures=[("nodes", "is_nodes(o) && nodes(o) == sel_index(nd(d), *idx)")]),
+                   ensures=[("nodes", "(o is Ref || o is Nothing) && nodes(o) == sel_index(nd(d), *idx)")]),
              3: Cl(expect="process_slice(d, start, end, sl_step)", types=["Pointer<'a, T>"], ret=NODE_CL,
                    requires=[("wf", "opt_ijson(*start) && opt_ijson(*end) && opt_ijson(*sl_step)")],
                    ensures=[("nodes", "is_nodes(o) && nodes(o) == sel_slice(nd(d), *start, *end, *sl_step)")]),
